@@ -1957,8 +1957,11 @@ func getIndexMap2(n *node) {
 		default:
 			n.exec = func(f *frame) bltn {
 				v := value0(f).MapIndex(mi)
-				if v.IsValid() {
-					dest(f).Set(v)
+				if d := dest(f); v.IsValid() {
+					d.Set(v)
+				} else {
+					// A missing entry yields the zero value.
+					d.Set(reflect.Zero(d.Type()))
 				}
 				if doStatus {
 					value2(f).SetBool(v.IsValid())
@@ -1978,8 +1981,11 @@ func getIndexMap2(n *node) {
 		default:
 			n.exec = func(f *frame) bltn {
 				v := value0(f).MapIndex(value1(f))
-				if v.IsValid() {
-					dest(f).Set(v)
+				if d := dest(f); v.IsValid() {
+					d.Set(v)
+				} else {
+					// A missing entry yields the zero value.
+					d.Set(reflect.Zero(d.Type()))
 				}
 				if doStatus {
 					value2(f).SetBool(v.IsValid())
